@@ -588,6 +588,12 @@ func init() {
 					}
 					yield(totCase{bi, "key!expr", a.k, "T{a=1}"})
 					yield(totCase{bi, "key!expr", a.k, "T{"})
+					// placeholders that lead to placeholders: itself, a cycle of two and of three, a chain ending in
+					// a missing key - whatever they resolve to, Refresh returns (a call that never returns is
+					// reported by the watchdog as call-blocked)
+					for _, cyc := range []string{"self", "two", "three", "chain-missing"} {
+						yield(totCase{bi, "placeholder", a.k, cyc})
+					}
 				}
 			}
 		},
@@ -606,6 +612,18 @@ func init() {
 			case "key!expr":
 				delete(m, c.Key)
 				m[c.Key+"!"] = c.Val
+			case "placeholder":
+				m[c.Key] = "${cyc-a}"
+				switch c.Val {
+				case "self":
+					m["cycA"] = "${cyc-a}"
+				case "two":
+					m["cycA"], m["cycB"] = "${cyc-b}", "${cyc-a}"
+				case "three":
+					m["cycA"], m["cycB"], m["cycC"] = "${cyc-b}", "${cyc-c}", "${cycA}"
+				case "chain-missing":
+					m["cycA"], m["cycB"] = "${cyc-b}", "${cyc-nowhere}"
+				}
 			}
 			key := fmt.Sprintf("%s %s %s %q", b.name, c.Mut, c.Key, c.Val)
 			confReset()
